@@ -64,7 +64,7 @@
 	struct packet *P##_w_outpkt(void); struct packet *P##_w_inpkt(void); int P##_w_running(void); \
 	void P##_w_set_dataenc(int); void P##_w_set_userid(int); void P##_w_set_conn(int); \
 	void P##_w_set_outpkt(const char *, int, int, int, int); \
-	void P##_w_send_chunk(int); void P##_w_send_ping(int); void P##_w_send_version(int); \
+	void P##_w_send_chunk(int); void P##_w_resend_chunk(int); void P##_w_send_ping(int); void P##_w_send_version(int); \
 	void P##_w_send_login(int, char *, int); void P##_w_send_fragsize_probe(int, int); \
 	void P##_w_send_set_downstream_fragsize(int, int); \
 	int P##_w_read_dns_withq(int, int, char *, int, struct query *); \
